@@ -52,6 +52,30 @@ Proof.
     apply filter_In in Hx. tauto.
 Qed.
 
+(** a pod the ExtendedDaemonSet [e] may touch: in its namespace with its name label, or - during a
+    declared migration - in its namespace and owned by the named old DaemonSet *)
+Definition own_pod (e : eds) (p : pod) : Prop :=
+  in_ns_with_eds_label e p = true \/
+  (p_ns p = e_ns e /\ exists d, an_old_ds (e_annots e) = Some d /\ In d (p_ds_owners p)).
+
+Lemma listed_pods_spec : forall e pods ods l, listed_pods e pods ods = Ok l ->
+  forall p, In p l -> In p pods /\ own_pod e p.
+Proof.
+  intros e pods ods l H p Hp. split; [eapply listed_pods_sub; eassumption|]. unfold listed_pods in H.
+  assert (A : forall q, In q (filter (in_ns_with_eds_label e) pods) -> own_pod e q).
+  { intros q Hq. apply filter_In in Hq. left. tauto. }
+  destruct (an_old_ds (e_annots e)) as [d|] eqn:Ed; [|inversion H; subst; auto].
+  destruct ods as [ds|]; [|inversion H; subst; auto].
+  assert (B : forall q (f : pod -> bool), (forall x, f x = true -> memN d (p_ds_owners x) = true) ->
+              In q (filter f (filter (fun p0 => N.eqb (p_ns p0) (e_ns e)) pods)) -> own_pod e q).
+  { intros q f Hf Hq. apply filter_In in Hq. destruct Hq as [Hq Hfq]. apply filter_In in Hq. destruct Hq as [_ Hns].
+    right. split; [apply N.eqb_eq; assumption|]. exists d. split; [exact Ed|]. apply memN_In. apply Hf; assumption. }
+  destruct (d_selector ds) as [sel|].
+  - destruct (lenient_selector_ok sel); [|discriminate]. inversion H; subst. apply in_app_or in Hp.
+    destruct Hp as [Hp|Hp]; [auto|]. eapply B; [|exact Hp]. intros x Hx. apply andb_true_iff in Hx. tauto.
+  - inversion H; subst. apply in_app_or in Hp. destruct Hp as [Hp|Hp]; [auto|]. eapply B; [|exact Hp]. auto.
+Qed.
+
 (** ** Strategy shapes *)
 Lemma strategy_canary_shape : forall sn cx so, strategy_canary sn cx = Ok so ->
   exists cp st0,
@@ -217,7 +241,8 @@ Qed.
 
 Theorem deleted_pods_are_listed_not_unknown : forall sn ch pl pn,
   ers_sync sn ch = Ok pl -> In pn (pl_deletes pl ++ pl_cleanup pl) ->
-  exists p, In p (sn_pods sn) /\ p_name p = pn /\ p_phase p <> PhUnknown.
+  exists p, In p (sn_pods sn) /\ p_name p = pn /\ p_phase p <> PhUnknown /\
+            (forall e, sn_eds sn = Some e -> own_pod e p).
 Proof.
   intros sn ch pl pn H Hin. apply ers_sync_inv in H.
   destruct H as [rl st after err Hp | e freq cx so He Hd Hf Hg Hc Hs Hfin].
@@ -234,6 +259,7 @@ Proof.
       rewrite Hit in Hi. apply items_of_names in Hi. destruct Hi as [Hentry _]. rewrite Hname, Hpod, Hfo in Hentry.
       destruct (kept_never_unknown _ _ _ _ _ _ _ _ Hentry) as [Hu [Hl _]].
       exists p. repeat split; auto.
+      intros e0 He0. rewrite He in He0. inversion He0; subst e0. eapply listed_pods_spec; eassumption.
     + rewrite Fcl in Hin.
       assert (Hcx : In pn (cx_cleanup cx) \/ so_cleanup so = []).
       { unfold strategy_of in Hs. destruct (cx_role cx).
@@ -251,6 +277,7 @@ Proof.
       unfold cx_cleanup, cleanup_targets, pod_names in Hcx. apply in_map_iff in Hcx. destruct Hcx as [p [Hpn Hp]].
       apply filter_In in Hp. destruct Hp as [Hp _]. rewrite Hfo in Hp.
       destruct (cleanup_never_unknown _ _ _ _ _ _ _ Hp) as [Hu Hl]. exists p. repeat split; auto.
+      intros e0 He0. rewrite He in He0. inversion He0; subst e0. eapply listed_pods_spec; eassumption.
 Qed.
 
 (** ** Clean-up: duplicates and pods on ineligible nodes *)
